@@ -247,6 +247,16 @@ inductive Ans
   | error (code : Int) (msg : Text)
   | unencodable
 
+/-- the JSON-RPC error code of an answer -/
+def Ans.code? : Ans → Option Int
+  | .error c _ => some c
+  | _ => none
+
+/-- the error text of an answer -/
+def Ans.text? : Ans → Option Text
+  | .error _ m => some m
+  | _ => none
+
 inductive Outcome (α : Type)
   | ok (a : α)
   | panic
@@ -549,6 +559,11 @@ inductive Reaction
       stdio: raised in a goroutine without `recover`, the process dies) -/
   | panic
 
+/-- the answer of a dispatcher outcome -/
+def Outcome.ans? : Outcome Ans → Option Ans
+  | .ok a => some a
+  | .panic => none
+
 def Reaction.http (status : Nat) (body : Option Json := none) : Reaction := .resp ⟨some status, body, []⟩
 def Reaction.nothing : Reaction := .resp ⟨none, none, []⟩
 
@@ -808,6 +823,43 @@ structure Registry.Conforming (reg : Registry) : Prop where
 def idsExact : Option Json → Prop
   | some (.obj o) => ∀ k i, (k, Json.int i) ∈ o → Mcp.Str.toLower k = t!"id" → i.natAbs ≤ two53
   | _ => True
+
+/-- `arguments` of tools/call is absent, `null` or an object -/
+def argumentsOk (m : Obj) : Bool :=
+  match lookup m t!"arguments" with
+  | none => true
+  | some .null => true
+  | some (.obj _) => true
+  | some _ => false
+
+/-- The REQUIRED parameters of a request are missing or of the wrong shape (the minimal reading of the MCP schema:
+    `initialize`: an object with a string `protocolVersion`; `tools/call`: an object with a non-empty string `name` and —
+    judged once the tool is known — `arguments` absent, `null` or an object; `prompts/get`: an object with a string `name`;
+    `resources/read`: an object with a string `uri`). `params` is what the envelope decoder hands to the managers. -/
+def badParams (reg : Registry) (method : Text) (params : Option Json) : Bool :=
+  match params.bind asObj? with
+  | none => method = t!"initialize" || method = t!"tools/call" || method = t!"prompts/get" || method = t!"resources/read"
+  | some m =>
+    if method = t!"initialize" then (lookupStr? m t!"protocolVersion").isNone
+    else if method = t!"tools/call" then
+      match lookupStr? m t!"name" with
+      | none => true
+      | some n => n.isEmpty || ((findTool reg.tools n).isSome && !argumentsOk m)
+    else if method = t!"prompts/get" then (lookupStr? m t!"name").isNone
+    else if method = t!"resources/read" then (lookupStr? m t!"uri").isNone
+    else false
+
+/-- the body carries an envelope the legacy SSE server can read an id or a method from (otherwise its answer is an error
+    object without an id member) -/
+def readableEnvelope : Body → Prop
+  | .parseFail => False
+  | .json j => ∃ b, decodeBase j = some b ∧ (b.id.isSome = true ∨ b.method ≠ [])
+
+/-- a stdio line that is classified as a request decodes into a request with a (non-null) id (otherwise an error answer
+    has no id member) -/
+def stdioAnswerable : Body → Prop
+  | .parseFail => True
+  | .json j => classifyStdio j = some .request → ∃ req id, decodeRequest j = some req ∧ req.id = some id
 
 /-- the JSON value of a body -/
 def Body.json? : Body → Option Json
